@@ -4,11 +4,11 @@ from harness.common.rng import Rng
 from harness.common import sim
 
 PROP = "C56"
-LEAN_MODULES = ["LunaVerif.Props.C56", "LunaVerif.Props.C56Stream"]
+LEAN_MODULES = ["LunaVerif.Props.C56", "LunaVerif.Props.C56Stream", "LunaVerif.Props.C56Spi"]
 DRIVER = "Driver/C56.lean"
 REQUIRED_THEOREMS = ["captures_depth_consecutive_samples", "readback_nth", "trigger_during_capture_ignored",
                      "pretrigger_delay", "stream_readout_exact", "stream_readout_complete",
-                     "stream_readout_returns_idle"]
+                     "stream_readout_returns_idle", "spi_readout_words"]
 RULE = ("cases = (sample_depth in {1,2,5,32,100} (+3,4,7,8,16,33 thorough), samples_pretrigger 0..3, domain sync/usb, "
         "three captured signals of 1+8+5 bits) x pattern: triggers sparse / held high / bursts / random incl. during "
         "capture; inputs random every cycle or a counter; captured_sample_number sweeps and random reads, also while "
@@ -25,13 +25,18 @@ ASSUMPTIONS = ["sample_depth >= 1", "captured_sample_number < sample_depth (addr
                "SyncSerialILA monitor (judged chip-select windows): no capture running and no trigger from 2 cycles before "
                "chip select rises until it falls, chip select low for the 4 cycles before, SPI clock idle at the level "
                "that makes the first edge the device's output edge, SCK high/low >= 1 cycle each",
+               "spi_readout_words: bits_per_word >= 4 (the class always uses >= 32), chip select active high (the class "
+               "does not forward cs_idles_high), no trigger from the end of the capture to the end of the window, chip "
+               "select low for at least 4 cycles before the window",
                "stream_readout_exact: the trigger is seen in a wrapper-idle state (WIdle: holds at reset, is kept by idle "
                "cycles and re-established by every read-out: init_WIdle, idle_step, stream_readout_returns_idle)"]
-PARTIAL = ("the IntegratedLogicAnalyzer core and the StreamILA read-out (same clock domain) are modelled and proved; "
-           "SyncSerialILA (SPI read-out) is modelled (composition of the core model with C50's SPIDeviceInterface "
-           "model), co-simulated and monitored (words read by an SPI controller = recorded samples in order) but its "
-           "read-out theorem is not proved; AsyncSerialILA (UART read-out) and StreamILA's optional AsyncFIFO to "
-           "another o_domain are not covered")
+PARTIAL = ("the IntegratedLogicAnalyzer core, the StreamILA read-out (same clock domain) and the SyncSerialILA read-out "
+           "are modelled, co-simulated and proved; for SyncSerialILA the theorem (spi_readout_words) says which word "
+           "the SPI interface loads into its transmit register for each word of a chip-select window (recorded sample k "
+           "for word k); that the transmit register is shifted out MSB first on sdo is C50's theorem about the same "
+           "SpiDevice.step function, the two are not combined into one bit-level statement (the monitor checks the "
+           "bit-level view on the real gateware). AsyncSerialILA (UART read-out = StreamILA + UARTMultibyteTransmitter) "
+           "and StreamILA's optional AsyncFIFO to another o_domain are not covered")
 
 WIDTHS = [1, 8, 5]
 TOTAL = sum(WIDTHS)
